@@ -177,6 +177,15 @@ func (m *Manager) getPrimaryStatus(status map[string]interface{}) map[string]int
 	status["listen_address"] = m.config.ListenAddr
 
 	// Get detailed primary status
+	// The current sequence number is asked of the log before the primary's
+	// lock is taken: a writer holds the log's mutex while it notifies the
+	// primary, which takes that lock exclusively (OnWALSync) - asking the log
+	// with the lock held would deadlock against it.
+	currentWalSeq := uint64(0)
+	if w := m.primary.currentWAL(); w != nil {
+		currentWalSeq = w.GetNextSequence() - 1 // Last used sequence
+	}
+
 	m.primary.mu.RLock()
 	defer m.primary.mu.RUnlock()
 
@@ -213,10 +222,6 @@ func (m *Manager) getPrimaryStatus(status map[string]interface{}) map[string]int
 	}
 
 	// Get WAL sequence information
-	currentWalSeq := uint64(0)
-	if m.primary.wal != nil {
-		currentWalSeq = m.primary.wal.GetNextSequence() - 1 // Last used sequence
-	}
 
 	// Add primary-specific information to status
 	status["replica_count"] = replicaCount
